@@ -146,6 +146,10 @@ func main() {
 			panic(err)
 		}
 		fmt.Printf("format=%s cases=%d\n", f.Name, len(items))
+		if loadInducedTimeouts > 0 {
+			fmt.Printf("load_induced_timeouts format=%s n=%d\n", f.Name, loadInducedTimeouts)
+			loadInducedTimeouts = 0
+		}
 		if timedOut {
 			fmt.Printf("timeout format=%s case=%d\n", f.Name, len(items)-1)
 			os.Exit(3)
